@@ -159,6 +159,130 @@ impl<'a> Cursor<'a> {
     { unimplemented!() }
 }
 
+
+// ---------------- the lexical grammar (October 2021, section 2.1) for the regular tokens ----------------
+pub open spec fn eq1(s: Seq<char>, a: char) -> bool { s.len() == 1 && s[0] == a }
+pub open spec fn eq2(s: Seq<char>, a: char, b: char) -> bool { s.len() == 2 && s[0] == a && s[1] == b }
+// Name :: NameStart NameContinue*
+#[verifier::opaque]
+pub open spec fn is_name(s: Seq<char>) -> bool { s.len() > 0 && name_start(s[0]) && forall|i: int| 1 <= i < s.len() ==> name_cont(#[trigger] s[i]) }
+// WhiteSpace / LineTerminator / UnicodeBOM runs (this lexer merges consecutive ignored characters of these classes into one token)
+#[verifier::opaque]
+pub open spec fn is_ws_run(s: Seq<char>) -> bool { s.len() > 0 && forall|i: int| 0 <= i < s.len() ==> ws(#[trigger] s[i]) }
+// Comment :: # CommentChar*      CommentChar :: SourceCharacter but not LineTerminator
+#[verifier::opaque]
+pub open spec fn is_comment(s: Seq<char>) -> bool { s.len() > 0 && s[0] == '#' && forall|i: int| 1 <= i < s.len() ==> !line_term(#[trigger] s[i]) }
+pub open spec fn nonzero(c: char) -> bool { '1' <= c <= '9' }
+// IntegerPart :: NegativeSign? 0 | NegativeSign? NonZeroDigit Digit*
+#[verifier::opaque]
+pub open spec fn is_int_unsigned(s: Seq<char>) -> bool {
+    s.len() > 0 && ((s.len() == 1 && s[0] == '0') || (nonzero(s[0]) && forall|i: int| 1 <= i < s.len() ==> digit(#[trigger] s[i])))
+}
+#[verifier::opaque]
+pub open spec fn is_int(s: Seq<char>) -> bool { is_int_unsigned(s) || (s.len() > 1 && s[0] == '-' && is_int_unsigned(s.subrange(1, s.len() as int))) }
+// FloatValue :: IntegerPart FractionalPart ExponentPart | IntegerPart FractionalPart | IntegerPart ExponentPart
+// FractionalPart :: . Digit+        ExponentPart :: ExponentIndicator Sign? Digit+
+// written as the equivalent left-linear grammar (each nonterminal = "a prefix that ends in ..."):
+#[verifier::opaque]
+pub open spec fn g_decimal_point(s: Seq<char>) -> bool { s.len() > 1 && s.last() == '.' && is_int(s.drop_last()) }              // IntegerPart .
+#[verifier::opaque]
+pub open spec fn g_fraction(s: Seq<char>) -> bool decreases s.len() {                                                               // IntegerPart . Digit+
+    s.len() > 0 && digit(s.last()) && (g_decimal_point(s.drop_last()) || g_fraction(s.drop_last()))
+}
+pub open spec fn is_e(c: char) -> bool { c == 'e' || c == 'E' }
+#[verifier::opaque]
+pub open spec fn g_exp_indicator(s: Seq<char>) -> bool { s.len() > 0 && is_e(s.last()) && (is_int(s.drop_last()) || g_fraction(s.drop_last())) }   // (IntegerPart | IntegerPart FractionalPart) e
+#[verifier::opaque]
+pub open spec fn g_exp_sign(s: Seq<char>) -> bool { s.len() > 0 && (s.last() == '+' || s.last() == '-') && g_exp_indicator(s.drop_last()) }
+#[verifier::opaque]
+pub open spec fn g_exp_digits(s: Seq<char>) -> bool decreases s.len() {                                                             // ... e Sign? Digit+
+    s.len() > 0 && digit(s.last()) && (g_exp_indicator(s.drop_last()) || g_exp_sign(s.drop_last()) || g_exp_digits(s.drop_last()))
+}
+#[verifier::opaque]
+pub open spec fn is_float(s: Seq<char>) -> bool { g_fraction(s) || g_exp_digits(s) }
+// lookahead restriction on numbers: not followed by Digit, `.` or NameStart
+pub open spec fn number_may_end_before(next: Option<char>) -> bool { next is Some ==> !digit(next->0) && next->0 != '.' && !name_start(next->0) }
+
+/// what a successfully returned token must be: the right kind for its text, and maximal
+pub open spec fn token_ok(kind: TokenKind, s: Seq<char>, next: Option<char>) -> bool {
+    match kind {
+        TokenKind::Name => is_name(s) && (next is Some ==> !name_cont(next->0)),
+        TokenKind::Whitespace => is_ws_run(s) && (next is Some ==> !ws(next->0)),
+        TokenKind::Comment => is_comment(s) && (next is Some ==> line_term(next->0)),
+        TokenKind::Int => is_int(s) && number_may_end_before(next),
+        TokenKind::Float => is_float(s) && number_may_end_before(next),
+        TokenKind::Spread => s.len() == 3 && s[0] == '.' && s[1] == '.' && s[2] == '.',
+        TokenKind::Eof => s.len() == 0,
+        TokenKind::StringValue => s.len() >= 2 && s[0] == '"' && s.last() == '"',
+        _ => s.len() == 1 && spec_punct(s[0]) == Some(kind),
+    }
+}
+/// per-state invariant of the state machine: what has been consumed for the current token
+pub open spec fn state_inv(state: State, s: Seq<char>, kind: TokenKind) -> bool {
+    match state {
+        State::Start => s.len() == 0,
+        State::Ident => kind is Name && is_name(s),
+        State::Whitespace => kind is Whitespace && is_ws_run(s),
+        State::Comment => kind is Comment && is_comment(s),
+        State::SpreadOperator => kind is Spread && eq1(s, '.'),
+        State::MinusSign => kind is Int && eq1(s, '-'),
+        State::LeadingZero => kind is Int && (eq1(s, '0') || eq2(s, '-', '0')),
+        State::IntegerPart => kind is Int && is_int(s) && !eq1(s, '0') && !eq2(s, '-', '0'),
+        State::DecimalPoint => kind is Float && g_decimal_point(s),
+        State::FractionalPart => kind is Float && g_fraction(s),
+        State::ExponentIndicator => kind is Float && g_exp_indicator(s),
+        State::ExponentSign => kind is Float && g_exp_sign(s),
+        State::ExponentDigit => kind is Float && g_exp_digits(s),
+        _ => kind is StringValue && s.len() >= 1 && s[0] == '"',
+    }
+}
+pub open spec fn next_char(c: &Cursor) -> Option<char> { if c.m@.start < c.m@.chars.len() { Some(c.m@.chars[c.m@.start as int]) } else { None } }
+pub open spec fn consumed(c: &Cursor) -> Seq<char> { c.m@.chars.subrange(c.m@.start as int, c.m@.eff() as int) }
+// One step of every production: the only facts about the grammar that the state machine's proof uses.
+// (The grammar predicates are opaque inside `advance`; this lemma is proved once, with them revealed.)
+pub proof fn lemma_step(s: Seq<char>, c: char)
+    ensures
+        s.push(c).len() == s.len() + 1, s.push(c).last() == c, s.push(c)[0] == (if s.len() > 0 { s[0] } else { c }),
+        // tokens of one char
+        s.len() == 0 ==> eq1(s.push(c), c),
+        (s.len() == 0 && name_start(c)) ==> is_name(s.push(c)),
+        (s.len() == 0 && ws(c)) ==> is_ws_run(s.push(c)),
+        (s.len() == 0 && c == '#') ==> is_comment(s.push(c)),
+        (s.len() == 0 && nonzero(c)) ==> is_int(s.push(c)) && !eq1(s.push(c), '0') && !eq2(s.push(c), '-', '0'),
+        // extension by one char
+        (is_name(s) && name_cont(c)) ==> is_name(s.push(c)),
+        (is_ws_run(s) && ws(c)) ==> is_ws_run(s.push(c)),
+        (is_comment(s) && !line_term(c)) ==> is_comment(s.push(c)),
+        (eq1(s, '-') && c == '0') ==> eq2(s.push(c), '-', '0'),
+        (eq1(s, '-') && nonzero(c)) ==> is_int(s.push(c)) && !eq1(s.push(c), '0') && !eq2(s.push(c), '-', '0'),
+        (eq1(s, '0') || eq2(s, '-', '0')) ==> is_int(s),
+        (is_int(s) && !eq1(s, '0') && !eq2(s, '-', '0') && digit(c)) ==> is_int(s.push(c)) && !eq1(s.push(c), '0') && !eq2(s.push(c), '-', '0'),
+        (is_int(s) && c == '.') ==> g_decimal_point(s.push(c)),
+        (is_int(s) && is_e(c)) ==> g_exp_indicator(s.push(c)),
+        (g_decimal_point(s) && digit(c)) ==> g_fraction(s.push(c)),
+        (g_fraction(s) && digit(c)) ==> g_fraction(s.push(c)),
+        (g_fraction(s) && is_e(c)) ==> g_exp_indicator(s.push(c)),
+        (g_exp_indicator(s) && digit(c)) ==> g_exp_digits(s.push(c)),
+        (g_exp_indicator(s) && (c == '+' || c == '-')) ==> g_exp_sign(s.push(c)),
+        (g_exp_sign(s) && digit(c)) ==> g_exp_digits(s.push(c)),
+        (g_exp_digits(s) && digit(c)) ==> g_exp_digits(s.push(c)),
+        g_fraction(s) ==> is_float(s),
+        g_exp_digits(s) ==> is_float(s),
+        (eq1(s, '.') && c == '.') ==> eq2(s.push(c), '.', '.'),
+{
+    reveal(is_name); reveal(is_ws_run); reveal(is_comment); reveal(is_int_unsigned); reveal(is_int); reveal(g_decimal_point);
+    reveal_with_fuel(g_fraction, 2); reveal(g_exp_indicator); reveal(g_exp_sign); reveal_with_fuel(g_exp_digits, 2); reveal(is_float);
+    let t = s.push(c);
+    assert(t.drop_last() =~= s);
+    if s.len() > 0 { assert(t.subrange(1, t.len() as int) =~= s.subrange(1, s.len() as int).push(c)); }
+    if s.len() > 1 && s[0] == '-' {
+        let u = s.subrange(1, s.len() as int);
+        assert(t.subrange(1, t.len() as int) =~= u.push(c));
+    }
+    if eq1(s, '-') { assert(t.subrange(1, 2) =~= seq![c]); }
+    if eq2(s, '-', '0') { assert(s.subrange(1, 2) =~= seq!['0']); }
+}
+
 // ---------------- specification of the lexer contract ----------------
 impl<'a> Cursor<'a> {
     /// between two calls of advance(): everything read has been handed out
@@ -172,6 +296,7 @@ pub open spec fn item_text<'a>(r: Result<Token<'a>, Error>) -> Seq<char> { match
 HEX_BLOCK_RE = r"(?s)let hex_end = self\.offset \+ 1;.*?\n                            continue;"
 HEX_BLOCK_NEW = "self.shim_check_unicode_escape();\n                            continue;"
 
+KIND_POST = ("ensures", "token_has_the_right_kind_and_is_maximal", "r is Ok ==> token_ok(r->Ok_0.kind, r->Ok_0.data@, next_char(&*final(self)))", ["C03"])
 ADV_POST = [
     ("ensures", "idle_again", "final(self).idle() && final(self).m@.chars == old(self).m@.chars && final(self).source == old(self).source"),
     ("ensures", "item_is_next_piece_of_input", "final(self).m@.start >= old(self).m@.start && item_text(r) =~= final(self).emitted(old(self))"),
@@ -182,7 +307,8 @@ ADV_POST = [
 UNIT = {
     "name": "lexer",
     "properties": ["C03", "C01", "C02"],
-    "rlimit_retry": [100, 400],
+    "rlimit": 600,            # Cursor::advance is one large query (19 states x all exits): measured ~110 s, rlimit ~1.1e9
+    "rlimit_retry": [],
     "parts": [
         dict(file="crates/apollo-parser/src/lexer/token_kind.rs", kind="enum", name="TokenKind", attrs="#[derive(Clone, Copy, PartialEq, Eq, Structural)]"),
         dict(file="crates/apollo-parser/src/lexer/token.rs", kind="struct", name="Token", pub_fields=True),
@@ -207,19 +333,23 @@ UNIT = {
              clauses=[("requires", "wf", "old(self).m@.wf() && !old(self).m@.pending && old(self).m@.read == old(self).m@.chars.len()"),
                       ("requires", "start_state_has_consumed_nothing", "state is Start ==> old(self).m@.start == old(self).m@.read && token.kind is Eof && token.data@ =~= Seq::<char>::empty()"),
                       ("requires", "other_states_have_consumed_something", "!(state is Start) ==> old(self).m@.start < old(self).m@.read && !(token.kind is Eof)"),
-                      ] + ADV_POST,
+                      ("requires", "grammar_state", "state_inv(state, consumed(&*old(self)), token.kind)"),
+                      ] + ADV_POST + [KIND_POST],
+             hints=[("body_start", None, "proof { lemma_step(consumed(&*self), 'x'); }")],
              rewrites=[(".to_string()", ".to_string_shim()", None)], props=["C03", "C01", "C02"]),
     
         dict(file=LX, kind="fn", name="advance", container=r"Cursor<'a>", container_name="Cursor", wrap="impl<'a> Cursor<'a>",
              n_loops=1,
-             clauses=[("requires", "idle", "old(self).idle()")] + ADV_POST,
+             clauses=[("requires", "idle", "old(self).idle()")] + ADV_POST + [KIND_POST],
              rewrites=[(HEX_BLOCK_RE, HEX_BLOCK_NEW, 1, "re"), (".to_string()", ".to_string_shim()", None)],
              loops=[dict(invariant=[
                  ("wf", "self.m@.wf(), self.m@.chars == old(self).m@.chars, self.source == old(self).source, self.m@.start == old(self).m@.start"),
                  ("start_state", "state is Start ==> self.m@.eff() == self.m@.start && token.kind is Eof && token.data@ =~= Seq::<char>::empty()"),
                  ("other_states", "!(state is Start) ==> self.m@.start < self.m@.eff() && !(token.kind is Eof)"),
+                 ("grammar_state", "state_inv(state, consumed(&*self), token.kind)"),
              ], decreases="self.m@.measure()")],
-             hints=[("body_start", None, "proof { reveal_strlit(\"\"); }")],
+             hints=[("body_start", None, "proof { reveal_strlit(\"\"); }"),
+                    ("before", "match state {", "proof { let s0 = self.m@.chars.subrange(self.m@.start as int, self.m@.read - 1); lemma_step(s0, c); assert(consumed(&*self) =~= s0.push(c)); }")],
              props=["C03", "C01", "C02"]),
     ],
 }
